@@ -67,6 +67,28 @@ CHECKS = {
             "Seeded search over producer/exchange scripts, input-schema perturbations and endings; client trace vs reference model plus "
             "server-side invariants recorded by the generated implementation (declared input schema, no process after cancel, on_cancel <= 1).",
             "real _serve_stream/_app_stream/StreamSession/HttpStreamSession; channels and WSGI invocation are stubs", "DESIGN.md §5 C10"),
+    "C11": ("exploration", SIM + "generated producer on a two-worker HTTP cluster: every (cap, codec, routing) configuration and every per-batch resume token on 4 worker situations vs the model",
+            "Seeded producer scripts iterated by the real client under drawn caps (1 byte .. unbounded), codecs and routing; every "
+            "next_with_token() token resumed on the same worker, the other worker cold / warmed, and the same worker after a restart; the "
+            "turn-size bound is checked on the recorded response bodies.",
+            "real producer turn / token / cache / client code; WSGI invocation instead of an HTTP server; simulated clock and PRNG", "DESIGN.md §5 C11"),
+    "C29": ("exploration", SIM + "generated programs over a simulated shm-pipe (real ShmPipeTransport on an in-memory segment) vs a plain pipe; allocation-table accounting after every call",
+            "Differential (shm-pipe vs pipe) plus a region-accounting oracle: after each call, at quiescence, allocated regions == batches the "
+            "client still holds; held batches keep their values. Segment sizes, shm threshold and release policy drawn per run.",
+            "real ShmPipeTransport/ShmSegment/server+client shm paths; SharedMemory and pipes are stubs", "DESIGN.md §5 C29"),
+    "C30": ("exploration", SIM + "HTTP leg with vs without an in-memory storage node; storage faults armed between upload and fetch; crafted pointer/blob pairs through the real resolver",
+            "Three strata: fault-free transparency (differential), storage faults (flip, truncate, substitute, lost, transient) where "
+            "application code may only ever see what the fault-free run delivers, and a pointer/blob grammar against resolve_external_location "
+            "(sha absent/match/mismatch, 0/1/2 data batches, nested pointer, schema change).",
+            "real externalize/resolve code paths and retry semantics; storage, fetch_url and tenacity are stubs (the real fetch is C31)", "DESIGN.md §5 C30"),
+    "C41": ("exploration", SIM + "2-3 client threads with generated scripts against the real threaded accept loop; tape-driven scheduling with line-level pre-emption; differential vs solo runs",
+            "Seeded schedules; each client's traces must equal its solo traces, server-side events of a call stay on its connection's "
+            "thread, connections inside serve() <= max_connections, no deadlock.",
+            "real _serve_socket_threaded/transports/RpcServer; sockets and threading are simulated; line-granular pre-emption", "DESIGN.md §5 C41"),
+    "C42": ("exploration", SIM + "2-3 concurrent first requests (HTTP WSGI threads or pipe/unix/tcp serve() calls) with raising/ok hooks, then sequential rebinding; pre-emption inside _notify_transport and the middleware",
+            "Seeded schedules and hook behaviours; history oracle: hook runs never overlap, <= 1 success per binding (exactly 1 if anything "
+            "dispatched), dispatch only after a successful hook of that kind, failures accounted one-to-one, hook re-run after a raise and on rebinding.",
+            "real _notify_transport/_TransportNotifyMiddleware/WSGI app; threading and transports simulated", "DESIGN.md §5 C42"),
     "C22": ("exploration", SIM + "proxy / network / worker event simulation on a virtual clock with skew, delay, replay and a 61-mutator header grammar; differential vs an independent transcription of the spec's decision table",
             "Seeded search over minted proofs, clock offsets around +-skew, network delay/duplication/replay/mutation and key rotation; the real "
             "verifier's verdict and reason must equal the reference table's first failing step, nothing but ProofError may escape, require-mode "
